@@ -18,6 +18,8 @@ class SubtrajAdapter:
         self.h = h
         cls = rb.SubtrajectoryReplayBufferPER if prio else rb.SubtrajectoryReplayBuffer
         self.buf = cls(n, horizon=h)
+        if prio:  # np.empty leaves arbitrary content in never-initialised priority slots
+            self.buf.priority.priority[:] = 7777.0
 
 
 def _check_window(batch, j, rows, h, inter):
@@ -107,8 +109,45 @@ def real_rng_windows(ad, model_state, seed, b=16):
 
 
 def run_config(rep, n, h, m, prio, prio_vals=(1,), max_batch=1, invs=(), label="", real_rng=True):
+    out = config_job(n, h, m, prio, tuple(prio_vals), max_batch, tuple(invs), label, real_rng, rep.seed, 16)
+    return merge(rep, out)
+
+
+def merge(rep, out):
+    for r in out["tlc"]:
+        rep.states += r["distinct"]
+        rep.transitions += r["generated"]
+        rep.extra.setdefault("tlc_runs", []).append(r)
+    for key, what, replay in out["violations"]:
+        rep.violation(key, what, replay)
+    rep.traces += out["edges"]
+    if out.get("sample"):
+        rep.sample(out["sample"])
+    return (out["edges"], out["nontrivial"]) if out["edges"] else None
+
+
+def config_job(n, h, m, prio, prio_vals, max_batch, invs, label, real_rng, seed, workers=4):
+    """One Subtraj configuration: TLC property run, generation run, transition-coverage replay."""
+    out = {"tlc": [], "violations": [], "edges": 0, "nontrivial": 0, "sample": None}
+
+    class _R:  # minimal stand-in for Report inside the worker
+        pass
+
+    rep = _R()
+    rep.seed = seed
+    rep.add_tlc = lambda r, name: out["tlc"].append({"name": name, "distinct": r.distinct, "generated": r.generated, "depth": r.depth, "wall_s": round(r.wall_s, 1)})
+    rep.violation = lambda key, what, replay=None: out["violations"].append((key, what, replay))
+    rep.sample = lambda s: out.__setitem__("sample", s)
+    rep.traces = 0
+    res = _run_config(rep, n, h, m, prio, prio_vals, max_batch, invs, label, real_rng, workers)
+    if res:
+        out["edges"], out["nontrivial"] = res
+    return out
+
+
+def _run_config(rep, n, h, m, prio, prio_vals=(1,), max_batch=1, invs=(), label="", real_rng=True, workers=16):
     c = dict(N=n, H=h, MaxAdds=m, PRIO=prio, PrioVals=set(prio_vals), MaxBatch=max_batch, EMIT=False)
-    r = tlc.run("Subtraj", tlc.cfg_text(constants=c, invariants=list(invs), properties=["EnvTermSticky"]), coverage=True, tag=f"st{n}{h}")
+    r = tlc.run("Subtraj", tlc.cfg_text(constants=c, invariants=list(invs), properties=["EnvTermSticky"]), coverage=True, tag=f"st{n}{h}", workers=workers)
     rep.add_tlc(r, f"Subtraj N={n} H={h} adds<={m} prio={prio} {label}")
     if not r.ok:
         rep.violation(f"spec:Subtraj:{r.violated}", f"design-level violation of {r.violated} (N={n},H={h})", r.error_trace)
@@ -129,7 +168,7 @@ def run_config(rep, n, h, m, prio, prio_vals=(1,), max_batch=1, invs=(), label="
     cls = "SubtrajectoryReplayBufferPER" if prio else "SubtrajectoryReplayBuffer"
     for v in res["violations"]:
         rep.violation(
-            f"{cls}:{v['path'][-1]['op']}:{v['what'][:70]}",
+            f"{cls}:{v['path'][-1]['op']}:{v['code']}",
             f"{cls} (N={n}, H={h}): {v['what']}",
             {"class": cls, "N": n, "H": h, "prio": prio, "path": v["path"], "detail": v["detail"]},
         )
